@@ -1,1 +1,33 @@
-crate::list![];
+//! C10 (K part): argument-validating kernels behind built-ins must return a
+//! value for every argument, because a panic inside the `extern "C"`
+//! trampoline aborts the host. The string views and list accessors are
+//! covered by the C17 / C15 harnesses (no-panic is part of "returns the
+//! documented value"); this file holds what is specific to C10.
+use crate::cover;
+use crate::nd::any;
+use std::net::{IpAddr, Ipv4Addr, Ipv6Addr};
+
+/// `Prefix.new(ip, len)` is registered as `Prefix::new_relaxed(ip, len).unwrap()`
+/// (runtime/basic.rs): the unwrap is safe only if `new_relaxed` is `Ok` for
+/// every `len: u8`.
+#[cfg_attr(kani, kani::proof)]
+pub fn c10_prefix_new_total_v4() {
+    let a: [u8; 4] = any();
+    let len: u8 = any();
+    let ip = IpAddr::V4(Ipv4Addr::new(a[0], a[1], a[2], a[3]));
+    let r = inetnum::addr::Prefix::new_relaxed(ip, len);
+    cover!(r.is_ok(), "ok");
+    assert!(r.is_ok(), "Prefix::new_relaxed is Err for some (ip, len): Prefix.new would panic in the trampoline");
+}
+
+#[cfg_attr(kani, kani::proof)]
+pub fn c10_prefix_new_total_v6() {
+    let a: [u16; 8] = any();
+    let len: u8 = any();
+    let ip = IpAddr::V6(Ipv6Addr::new(a[0], a[1], a[2], a[3], a[4], a[5], a[6], a[7]));
+    let r = inetnum::addr::Prefix::new_relaxed(ip, len);
+    cover!(r.is_ok(), "ok");
+    assert!(r.is_ok(), "Prefix::new_relaxed is Err for some (ip, len): Prefix.new would panic in the trampoline");
+}
+
+crate::list![c10_prefix_new_total_v4, c10_prefix_new_total_v6];
